@@ -780,6 +780,13 @@ pub fn gen_c09(rng: &mut Rng, tier: Tier) -> NetProgram {
         if rng.chance(1, 3) {
             m.start_acts = (0..1 + rng.small(2)).map(|_| Act::Send { gate: rng.below(5) as u32, delay_ns: if rng.chance(1, 4) { 250_000_000 } else { 0 }, body: 1 }).collect();
         }
+        // processing elements that merely observe: they are part of the module's message handling, so they see nothing
+        // while the module is down either
+        if rng.chance(1, 4) {
+            for _ in 0..1 + rng.small(2) {
+                m.pes.push(PeSpec { mode: 0, m: 1, r: 0, send_hook: 0, gate: 0 });
+            }
+        }
     }
     prog
 }
